@@ -1,3 +1,5 @@
+#[cfg(cachelito_verif)]
+use crate::verif_seams::sim_std as std;
 #[cfg(feature = "stats")]
 use crate::CacheStats;
 use crate::EvictionPolicy;
